@@ -63,6 +63,18 @@ fn block_id(tag: u8) -> tendermint::block::Id {
     }
 }
 
+fn nil_vote_message(height: u32, chain: &str, timestamp: tendermint::Time) -> Vec<u8> {
+    let canonical_vote = tendermint::vote::CanonicalVote {
+        vote_type: tendermint::vote::Type::Precommit,
+        height: height.into(),
+        round: 0u16.into(),
+        block_id: None,
+        timestamp: Some(timestamp),
+        chain_id: chain.try_into().unwrap(),
+    };
+    tendermint_proto::types::CanonicalVote::from(canonical_vote).encode_length_delimited_to_vec()
+}
+
 fn vote_message(height: u32, chain: &str, bid: tendermint::block::Id, timestamp: tendermint::Time) -> Vec<u8> {
     let canonical_vote = tendermint::vote::CanonicalVote {
         vote_type: tendermint::vote::Type::Precommit,
@@ -143,6 +155,17 @@ fn build_commit(t: &[&str], bid: tendermint::block::Id) -> (tendermint::block::C
                 }
                 let parts: Vec<&str> = s.split(':').collect();
                 let addr: u64 = parts[1].parse().unwrap();
+                if parts[0] == "n" {
+                    // a validly signed precommit for nil by validator `addr`
+                    let msg = nil_vote_message(height, CHAIN, timestamp);
+                    return CommitSig::BlockIdFlagNil {
+                        validator_address: address(addr),
+                        timestamp,
+                        signature: Some(
+                            tendermint::Signature::try_from(signing_key(addr).sign(&msg).to_bytes().to_vec()).unwrap(),
+                        ),
+                    };
+                }
                 let signature = match parts[2] {
                     "-" => None,
                     "0" => Some(tendermint::Signature::try_from(vec![0x17u8; 64]).unwrap()),
@@ -353,8 +376,10 @@ fn gen_check(rng: &mut Rng) -> String {
         let s = match mode {
             // honest commits with a varying subset
             0..=4 => {
-                if c < 70 {
+                if c < 65 {
                     format!("c:{k}:{k}")
+                } else if c < 85 {
+                    format!("n:{k}")
                 } else {
                     "o".to_string()
                 }
@@ -409,6 +434,14 @@ fn gen_ops(rng: &mut Rng, thorough: bool) -> Vec<String> {
         for j in 0..=k {
             let vals: Vec<String> = (1..=k).map(|i| format!("{i}:1")).collect();
             let sigs: Vec<String> = (1..=k).map(|i| if i <= j { format!("c:{i}:{i}") } else { "o".into() }).collect();
+            ops.push(format!("check 1 {} {}", vals.join(","), sigs.join(",")));
+        }
+    }
+    // the same with the non-signers voting nil (validly signed precommits for nil)
+    for k in 2..=7u64 {
+        for j in 0..=k {
+            let vals: Vec<String> = (1..=k).map(|i| format!("{i}:1")).collect();
+            let sigs: Vec<String> = (1..=k).map(|i| if i <= j { format!("c:{i}:{i}") } else { format!("n:{i}") }).collect();
             ops.push(format!("check 1 {} {}", vals.join(","), sigs.join(",")));
         }
     }
